@@ -66,6 +66,11 @@ def importSchemaComponent(self, pkgname):
 
 
 def loadResource(self, resource):
+    # every load starts from the schema the loader was created with and with
+    # the private-copy flag cleared -- the two go together: the flag set with
+    # the application schema in place would let an import write into it
+    self.schema = self._base_schema
+    self._private_schema = False
     sm = self.createSchemaMatcher()
     self._open_urls.append(resource.url)
     try:
